@@ -312,6 +312,8 @@ func checkC08(e *Env, r *Report) {
 		r.Fatal = err.Error()
 		return
 	}
+	nSib := addSiblingProbes(e.Src)
+	r.Coverage["sibling_probes"] = nSib
 	recs := []any{}
 	// static part: manifests and directive arguments name source profiles
 	srcNames := []string{}
@@ -394,4 +396,46 @@ func checkC08(e *Env, r *Report) {
 	r.Assume = append(r.Assume, "a name also resolves when the upstream policy directory the build is installed over (/etc/apparmor.d of apparmor 3.0.8) defines it",
 		"targets containing a variable or a glob are patterns and exempt, as the statement allows")
 	runTreeTrace(e, r, recs, "C08")
+}
+
+// addSiblingProbes: for every directory an ignore list removes (apparmor.d/groups/X) and every sibling
+// group whose name merely starts with X (and that no list removes), a generated profile with a named
+// transition into the sibling is added to the private source copy: an ignore entry must not reach it.
+func addSiblingProbes(src string) int {
+	ignoredDirs := map[string]bool{}
+	files, _ := filepath.Glob(filepath.Join(src, "dists", "ignore", "*.ignore"))
+	for _, f := range files {
+		for _, en := range readListFile(f) {
+			en = strings.TrimSuffix(en, "/")
+			if strings.HasPrefix(en, "apparmor.d/groups/") && strings.Count(en, "/") == 2 {
+				ignoredDirs[strings.TrimPrefix(en, "apparmor.d/groups/")] = true
+			}
+		}
+	}
+	groups, _ := os.ReadDir(filepath.Join(src, "apparmor.d", "groups"))
+	n := 0
+	for x := range ignoredDirs {
+		for _, g := range groups {
+			s := g.Name()
+			if !g.IsDir() || s == x || !strings.HasPrefix(s, x) || ignoredDirs[s] {
+				continue
+			}
+			ents, _ := os.ReadDir(filepath.Join(src, "apparmor.d", "groups", s))
+			for _, en := range ents {
+				if en.IsDir() {
+					continue
+				}
+				q := en.Name()
+				name := "zz-vgen-sib-" + q
+				text := "abi <abi/4.0>,\n\ninclude <tunables/global>\n\n@{exec_path} = @{bin}/" + name + "\nprofile " + name + " @{exec_path} {\n  include <abstractions/base>\n\n  @{exec_path} mr,\n\n  @{bin}/" + q + " rPx -> " + q + ",\n\n  include if exists <local/" + name + ">\n}\n"
+				d := filepath.Join(src, "apparmor.d", "groups", "vgen-sib")
+				_ = os.MkdirAll(d, 0o755)
+				if os.WriteFile(filepath.Join(d, name), []byte(text), 0o644) == nil {
+					n++
+				}
+				break
+			}
+		}
+	}
+	return n
 }
